@@ -182,7 +182,7 @@ CHECKS["C18"] = ("model_checking",
 CHECKS["C29"] = ("model_checking",
     "TLA+ QRMatch spec (PS3.4 C.2.2.2 single value / universal / list of UID / wild card / range matching, hierarchical selection, identifier validity) with MC_QR model-checked by TLC (selection of every case, lemmas "
     "L_Universal, L_Monotone, L_ListOne); every case is run on the real qrscp database code and C-FIND handler (S2C) and the observed selection, acceptance and number of responses judged by the Trace_QR spec (C2S)",
-    "Three databases (5 instances of 3 patients chosen to separate case, '%', '_', list and range semantics) x 2 information models x {C-FIND, C-GET/C-MOVE} x 4 levels x every identifier within one key (1968 cases) and two keys "
+    "Four databases (one left behind by re-storing an instance with fewer attributes) (5 instances of 3 patients chosen to separate case, '%', '_', list and range semantics) x 2 information models x {C-FIND, C-GET/C-MOVE} x 4 levels x every identifier within one key (1968 cases) and two keys "
     "(34224 cases; 2500 sampled in quick) of the plain identifier of its level.",
     "Trusted: transcription of PS3.4 C.2.2.2 / C.4.1.3.1.1; pydicom configured as qrscp.py configures it; identifiers encoded and decoded as on the wire; the handler is called with an event object carrying what it reads.", "§6 C29", "qr")
 
